@@ -958,6 +958,13 @@ impl Compiler {
 
             // Pop scope
             self.emit_pop_scope();
+
+            // While the catch body runs, a finally-only handler stands in for this statement
+            // (so that an exception, break or return inside the catch body still runs the
+            // finally block); on normal completion it has done its job
+            if try_stmt.finalizer.is_some() {
+                self.builder.emit(Op::PopTry);
+            }
         }
 
         // Jump to finally (if exists) or end
